@@ -7,20 +7,23 @@ import numpy as np
 from . import common
 
 PROP = "C03"
-MODULES = ["PdsVerif.Props.SiFrameTie", "PdsVerif.Props.C03"]
+MODULES = ["PdsVerif.Props.SiFrameTie", "PdsVerif.Props.SiTie", "PdsVerif.Props.C03"]
 MODEL_MODULES = ["PdsVerif.Model.Si"]
 REQUIRED = ["PdsVerif.C03." + n for n in [
     "circConv_eq_idft_dft_mul", "overlap_save_valid", "overlap_save_lastK", "accumulate_spec", "si_full_count", "si_full_spec", "si_spec_coef",
     "si_energy", "si_dtype", "si_dtype_nonfloat", "si_full_spec_gaussian", "si_stream_eq_full", "si_stream_eq_spec",
     "si_stream_chunk", "si_stream_emitted_le",
-]] + ["PdsVerif.SiFrameTie.si_frame_spec", "PdsVerif.SiFrameTie.si_frame_ge_log_floor"]
+]] + ["PdsVerif.SiFrameTie.si_frame_spec", "PdsVerif.SiFrameTie.si_frame_ge_log_floor"] + ["PdsVerif.SiTie." + n for n in ["reset_x_rem_eq", "reset_y_rem_eq", "reset_skip_eq", "reset_started_eq", "reset_zeroes_eq", "valid_eq", "num_raw_eq", "num_frames_eq", "num_processed_eq", "num_dfts_eq", "x_rem_after_eq", "chunkCore_bookkeeping", "fin_buf_len_eq", "fin_num_frames_eq", "fin_pad_right_eq", "finalize_eq_gen"]]
 
 
 def translate(repo):
     """ShortIntegrationFrameComputer._compute_frame (sum of the half-frame accumulators, log floor) ->
     Generated/SiFrame.lean (theorem: Props/SiFrameTie.lean)"""
-    from .translate import framecoeff
-    return framecoeff.generate_si(repo)
+    from .translate import framecoeff, siconsts
+    files = dict(framecoeff.generate_si(repo))
+    # integer bookkeeping (_compute_preamble reset, compute_chunk planning, finalize) -> Generated/SiConsts.lean (Props/SiTie.lean)
+    files.update(siconsts.generate(repo))
+    return files
 
 RULE = (
     "IntFIR correspondence: (frame_shift S, 1-3 filters with integer or Gaussian-integer taps on chosen half-open "
